@@ -500,6 +500,12 @@ func CheckTree(t *avl.Tree[int], want []int, balance bool) string {
 	if !balance {
 		return ""
 	}
+	return CheckShape(in, pre)
+}
+
+// CheckShape verifies the AVL balance and the depth bound of the tree reconstructed from its in-order and
+// pre-order traversals (distinct values).
+func CheckShape(in, pre []int) string {
 	pos := make(map[int]int, len(in))
 	for i, v := range in {
 		pos[v] = i
@@ -906,18 +912,40 @@ func ClearReuse(n int, balance bool, trace func(any)) (calls int, fail string) {
 // recovers). Afterwards Len must equal the number of values the walks list, and the contents must be
 // either what they were or the completed operation's result.
 func PanickingComparator() (cases int, fail string) {
+	c1, f := PanickingComparatorT("int", func(i int) int { return i }, func(v int) int { return v })
+	if f != "" {
+		return c1, f
+	}
+	// an element type of 520 bytes (insertion / removal strategies that depend on the element size)
+	type big [65]int64
+	c2, f := PanickingComparatorT("[65]int64", func(i int) big { var b big; b[0], b[64] = int64(i), int64(-i); return b }, func(v big) int { return int(v[0]) })
+	return c1 + c2, f
+}
+
+// PanickingComparatorT: trees of 0..9 values of element type T; one Add / Remove / Contains whose comparator
+// panics at its k-th call, recovered by the caller: the tree holds its old or its new contents with a
+// matching Len - and it stays a healthy AVL tree: every value is then removed, one at a time, with the
+// balance checked after every removal (a node left half-attached with stale heights shows only later).
+func PanickingComparatorT[T comparable](tname string, mk func(int) T, key func(T) int) (cases int, fail string) {
+	ints := func(s []T) []int {
+		out := make([]int, len(s))
+		for i, v := range s {
+			out[i] = key(v)
+		}
+		return out
+	}
 	for n := 0; n <= 9; n++ {
 		for _, op := range []string{"Add", "Remove", "Contains"} {
 			for v := -1; v <= 2*n+1; v++ {
-				for k := 1; k <= 5; k++ {
+				for k := 1; k <= 6; k++ {
 					armed, calls := false, 0
-					t := avl.New(func(a, b int) int {
+					t := avl.New(func(a, b T) int {
 						if armed {
 							if calls++; calls == k {
 								panic("comparator failed")
 							}
 						}
-						return a - b
+						return key(a) - key(b)
 					})
 					var before []int
 					for i := 0; i < n; i++ {
@@ -925,7 +953,7 @@ func PanickingComparator() (cases int, fail string) {
 						if i%2 == 1 {
 							idx = n - 1 - i/2
 						}
-						t.Add(2 * idx)
+						t.Add(mk(2 * idx))
 						before = append(before, 2*i)
 					}
 					armed = true
@@ -934,11 +962,11 @@ func PanickingComparator() (cases int, fail string) {
 						defer func() { recover() }()
 						switch op {
 						case "Add":
-							t.Add(v)
+							t.Add(mk(v))
 						case "Remove":
-							t.Remove(v)
+							t.Remove(mk(v))
 						default:
-							t.Contains(v)
+							t.Contains(mk(v))
 						}
 						completed = true
 					}()
@@ -954,10 +982,35 @@ func PanickingComparator() (cases int, fail string) {
 							after = append(after[:i], after[i+1:]...)
 						}
 					}
-					in := t.SliceInOrder()
+					in := ints(t.SliceInOrder())
 					okC := eq(in, after) || (!completed && eq(in, before))
 					if !okC || t.Len() != len(in) || len(t.SlicePreOrder()) != len(in) {
-						return cases, fmt.Sprintf("tree %v: %s(%d) with a comparator that panics at its call %d (completed=%v, recovered): in-order %v, Len %d; want %v or %v with a matching Len", before, op, v, k, completed, in, t.Len(), before, after)
+						return cases, fmt.Sprintf("(%s) tree %v: %s(%d) with a comparator that panics at its call %d (completed=%v, recovered): in-order %v, Len %d; want %v or %v with a matching Len", tname, before, op, v, k, completed, in, t.Len(), before, after)
+					}
+					distinct := true
+					for i := 1; i < len(in); i++ {
+						distinct = distinct && in[i] != in[i-1]
+					}
+					if !distinct {
+						continue
+					}
+					if m := CheckShape(in, ints(t.SlicePreOrder())); m != "" {
+						return cases, fmt.Sprintf("(%s) tree %v after %s(%d) whose comparator panicked at its call %d (recovered): %s", tname, before, op, v, k, m)
+					}
+					rest := append([]int{}, in...)
+					for len(rest) > 0 {
+						x := rest[len(rest)/2]
+						if !t.Remove(mk(x)) {
+							return cases, fmt.Sprintf("(%s) tree %v after %s(%d) whose comparator panicked at its call %d (recovered): later Remove(%d) = false", tname, before, op, v, k, x)
+						}
+						rest = append(rest[:len(rest)/2], rest[len(rest)/2+1:]...)
+						got := ints(t.SliceInOrder())
+						if !eq(got, rest) {
+							return cases, fmt.Sprintf("(%s) tree %v after %s(%d) whose comparator panicked at its call %d (recovered), then Remove(%d): in-order %v, want %v", tname, before, op, v, k, x, got, rest)
+						}
+						if m := CheckShape(got, ints(t.SlicePreOrder())); m != "" {
+							return cases, fmt.Sprintf("(%s) tree %v after %s(%d) whose comparator panicked at its call %d (recovered), then Remove(%d): %s", tname, before, op, v, k, x, m)
+						}
 					}
 				}
 			}
